@@ -110,6 +110,32 @@ def _check_case(durs, cols, off, res, light_too=True):
                 res.violation(f"C17|n={len(durs)}|not-periodic", f"{case0} t={t}", dict(case0, t=t))
         except Exception:
             pass
+    # other ways to arrive at the same cycle definition: (a) an empty cycle filled by appending to its element list, while a second cycle is filled
+    # the same way with the reversed definition; (b) elements constructed equal to each other (also across two cycles) and then edited through the
+    # state / duration setters.  The oracle is the definition the caller supplied, not what the object reports about itself.
+    try:
+        filled, other = TrafficLightCycle(time_offset=off), TrafficLightCycle(time_offset=off + 1)
+        for i, (c, d) in enumerate(zip(cols, durs)):
+            filled.cycle_elements.append(TrafficLightCycleElement(c, d))
+            other.cycle_elements.append(TrafficLightCycleElement(cols[-1 - i], durs[-1 - i]))
+        els_a = [TrafficLightCycleElement(cols[0], durs[0]) for _ in cols]
+        els_b = [TrafficLightCycleElement(cols[0], durs[0]) for _ in cols]
+        edited, twin = TrafficLightCycle(els_a, time_offset=off), TrafficLightCycle(els_b, time_offset=off)
+        for i, (c, d) in enumerate(zip(cols, durs)):
+            els_a[i].state = c; els_a[i].duration = d
+        for t in ts:
+            exp = expanded[(t - off) % T]
+            exp_twin = cols[0]
+            exp_other = expanded[::-1][(t - off - 1) % T]
+            for lab, obj, e in (("filled-by-append", filled, exp), ("second-cycle-filled-by-append", other, exp_other), ("elements-edited-through-setters", edited, exp),
+                                ("twin-of-edited-cycle", twin, exp_twin)):
+                res.evals += 1; res.transitions += 1
+                got = obj.get_state_at_time_step(t)
+                if got != e:
+                    res.violation(f"C17|n={len(durs)}|route:{lab}|wrong-state", f"{case0} t={t}: got {got} expected {e}", dict(case0, t=t))
+                    break
+    except Exception as e:
+        res.violation(f"C17|n={len(durs)}|route|raises:{type(e).__name__}", repr(e), dict(case0))
     # the statement quantifies over every cycle: the 'active' flag (constructor argument and public setter, on the cycle and on the light)
     # is not part of the cycle definition and must not change the reported state
     try:
